@@ -27,6 +27,7 @@ func EnvNames(dir string) (names []string, opaque []string) {
 			continue
 		}
 		consts := map[string]string{}
+		nOpaque := len(opaque)
 		ast.Inspect(f, func(n ast.Node) bool {
 			if vs, ok := n.(*ast.ValueSpec); ok {
 				for i, nm := range vs.Names {
@@ -82,8 +83,34 @@ func EnvNames(dir string) (names []string, opaque []string) {
 			}
 			return true
 		})
+		// a name that is computed (a loop over a table of names, a prefix plus a suffix): every string
+		// literal of that file that is shaped like a variable name is a candidate; setting a variable
+		// nobody reads changes nothing
+		if len(opaque) > nOpaque {
+			ast.Inspect(f, func(n ast.Node) bool {
+				bl, ok := n.(*ast.BasicLit)
+				if !ok || bl.Kind != token.STRING {
+					return true
+				}
+				s, err := strconv.Unquote(bl.Value)
+				if err != nil || len(s) < 2 || len(s) > 40 || seen[s] {
+					return true
+				}
+				for i, c := range s {
+					if !(c >= 'A' && c <= 'Z' || c == '_' || i > 0 && c >= '0' && c <= '9') {
+						return true
+					}
+				}
+				seen[s] = true
+				names = append(names, s)
+				return true
+			})
+		}
 	}
 	sort.Strings(names)
+	if len(names) > 24 {
+		names = names[:24]
+	}
 	return names, opaque
 }
 
